@@ -87,8 +87,9 @@ REJ_RE = re.compile(r'^<<"REJ", (-?\d+), "([^"]+)", (.*)>>$')
 DONE_RE = re.compile(r'^<<"DONE", (\d+)>>$')
 
 
-def validate_shards(tmp, module, shards, label, timeout=3000, heap="3g"):
+def validate_shards(tmp, module, shards, label, timeout=None, heap="3g"):
     """Run the trace specification over every shard (one TLC per shard)."""
+    timeout = timeout or (9000 if os.environ.get("VERIF_TIER") == "thorough" else 3000)
     def one(i_path):
         i, path = i_path
         n = sum(1 for _ in open(path))
@@ -345,6 +346,7 @@ def main(argv):
     a = ap.parse_args(argv)
     if a.tier not in ("quick", "thorough"):
         a.tier = "quick"
+    os.environ["VERIF_TIER"] = a.tier   # read by validate_shards for its time limit
     if a.prop not in PLANS:
         log("no check for", a.prop)
         return 2
